@@ -99,6 +99,8 @@ pub struct Monitor {
     idle_ms: Option<u64>,
     /// the broker stopped reading at this time (C18)
     stalled_since: Option<u64>,
+    /// a CONNACK has been surfaced since the transport of the silent handshake was offered
+    connack_surfaced: bool,
     healthy: bool,
     completed_rels: Vec<u16>,
     expect_unsolicited: bool,
@@ -170,6 +172,7 @@ impl Monitor {
             handshake_wait_ms: None,
             idle_ms: None,
             stalled_since: None,
+            connack_surfaced: false,
             healthy: false,
             completed_rels: vec![],
             expect_unsolicited: false,
@@ -606,6 +609,7 @@ impl Monitor {
         match ev {
             Ev::In(pk) => {
                 if let Pk::ConnAck { .. } = pk {
+                    self.connack_surfaced = true;
                     self.healthy = true;
                     self.last_was_error = false;
                     self.conn_started_ms = now;
@@ -958,7 +962,7 @@ impl Monitor {
             (&self.ledger, &self.sent, &self.broker_pubs),
             (&self.to_client, &self.replies, &self.stale_in),
             (&self.in_aliases, &self.lenient_tags, &self.optional_replies),
-            (self.reconnect_offered_ms, self.silent_handshake, self.errors.len(), self.handshake_wait_ms, self.idle_ms, self.stalled_since.is_some()),
+            (self.reconnect_offered_ms, self.silent_handshake, self.errors.len(), self.handshake_wait_ms, self.idle_ms, self.stalled_since.is_some(), self.connack_surfaced),
             &self.carry,
             self.resumed,
             self.acks_in_order,
@@ -997,6 +1001,17 @@ impl Monitor {
     }
     pub fn set_partial(&mut self, b: bool) {
         self.partial_outstanding = b;
+        if b && self.reconnect_offered_ms.is_some() && !self.connack_surfaced {
+            // half a CONNACK is not an answer: the handshake is still incomplete
+            self.silent_handshake = true;
+        } else if !b {
+            // the rest arrived, or the transport went away
+            self.silent_handshake = false;
+        }
+    }
+    /// the broker closed the transport during the handshake: not a case for the timeout
+    pub fn handshake_aborted(&mut self) {
+        self.silent_handshake = false;
     }
     pub fn errors(&self) -> &Vec<(String, u64)> {
         &self.errors
@@ -1016,6 +1031,7 @@ impl Monitor {
     pub fn reconnect_offered(&mut self, now: u64) {
         self.reconnect_offered_ms = Some(now);
         self.silent_handshake = true;
+        self.connack_surfaced = false;
     }
     pub fn conn_timeout_ms(&self) -> u64 {
         self.conn_timeout_ms
